@@ -48,7 +48,11 @@ HISTORY_ON = os.environ.get('VERIF_HISTORY', '1') != '0'
 def warm(codec, data, **opts):
     """A history: the other codecs' decoders see the same octets first (with the same options and with
     none).  The model's decoders are functions of (codec, type, octets) alone, so nothing that ran
-    before may change an outcome; caches shared between calls or between codecs would."""
+    before may change an outcome; caches shared between calls or between codecs would.  Before that, other types are
+    derived from the guiding object (and its component types) by subtype()/clone() and thrown away."""
+    spec = opts.get('asn1Spec')
+    if spec is not None:
+        derive_from(spec)
     for other in ('BER', 'CER', 'DER'):
         if other == codec:
             continue
@@ -57,6 +61,34 @@ def warm(codec, data, **opts):
                 DEC[other].decode(data, **kw)
             except RecursionError:
                 pass
+            except Exception:
+                pass
+
+
+def derive_from(obj, depth=0):
+    """read-only uses of a type/value object that build OTHER objects from it, results thrown away: retagged and
+    re-constrained flavours by subtype(...) / clone(...), for the object and (constructed types) its component types.
+    Schemas are routinely derived from one another this way; none of it may change what `obj` itself means."""
+    from pyasn1.type import tag as _tag, constraint as _cn, univ as _u, base as _b
+    t1 = _tag.Tag(_tag.tagClassContext, _tag.tagFormatSimple, 9)
+    t2 = _tag.Tag(_tag.tagClassApplication, _tag.tagFormatConstructed, 40)
+    ops = [lambda: obj.subtype(explicitTag=t1), lambda: obj.clone(subtypeSpec=_cn.ConstraintsIntersection()),
+           lambda: obj.subtype(subtypeSpec=_cn.ConstraintsIntersection())]
+    if getattr(obj, 'tagSet', None):
+        ops += [lambda: obj.subtype(implicitTag=t2), lambda: obj.clone(tagSet=obj.tagSet.tagExplicitly(t2))]
+    for f in ops:
+        try:
+            f()
+        except Exception:
+            pass
+    if depth < 3:
+        ct = getattr(obj, 'componentType', None)
+        if isinstance(obj, _u.SequenceOfAndSetOfBase) and ct is not None and ct is not _b.noValue:
+            derive_from(ct, depth + 1)
+        elif isinstance(obj, _u.SequenceAndSetBase) and ct is not None:
+            try:
+                for nt in ct.namedTypes:
+                    derive_from(nt.asn1Object, depth + 1)
             except Exception:
                 pass
 
